@@ -68,21 +68,24 @@ CHECKS = {
         "this round.",
    ref="DESIGN.md section 4 (C06-C08)"),
  "C08": dict(
-   technique="Coq proof of decoder strictness (missing required / wrong type rejected, for every schema) and completeness (every valid document is accepted, for every well-formed schema) + differential check on documents generated from the schema and their single-fault mutants; value preservation proved on encoder outputs only (partial)",
+   technique="Coq proof of decoder strictness (missing required / wrong type rejected, for every schema) and completeness (every valid document is accepted, for every well-formed schema) + differential check on documents generated from the schema and their single-fault mutants; stability of the decoded value under re-encoding (decode, encode, decode again) proved; member-wise equality with the original document checked, not proved (partial)",
    text="C08_missing_required, C08_wrong_type, C08_declared_properties_decode: for every object schema (embedded members included) a document "
         "lacking a required property or carrying a non-null value of the wrong JSON type for a declared property is rejected by the decoder "
         "model (frame lemma: an embedded member only deletes keys it declares). C08_valid_accepted: for every well-formed schema (allOf $ref "
         "members are objects without additionalProperties of their own, no property declared twice) every document the independent validator "
         "of Spec/JsonSpec.v accepts — any subset of the optional properties, any member order, null where nullable, extra keys where "
         "additionalProperties allows them — decodes without error (invariant: the shrinking shared key map stays a duplicate-free sub-map of "
-        "the document in which the keys of the members still to come are untouched and those already consumed are gone). That the decoded "
-        "value re-encodes to an equivalent document is proved for documents produced by the encoder (C06_roundtrip); for arbitrary valid "
-        "documents it is checked, not proved: the tie decodes documents generated FROM the schema by an independent generator and their single-fault mutants, compares value, "
+        "the document in which the keys of the members still to come are untouched and those already consumed are gone). "
+        "C08_decoded_in_domain / C08_reencode_stable: for schemas with Go's integer sizes and nullable only around non-nullable schemas, the "
+        "value a valid document decodes to lies in the round-trip domain (integers in range, additional properties kept under their own "
+        "distinct keys), so it re-encodes to a document that is valid again and decodes to the same value: a decode/encode cycle loses "
+        "nothing the type holds. That the re-encoding equals, member by member, the kept part of the ORIGINAL document is checked, not "
+        "proved: the tie decodes documents generated FROM the schema by an independent generator and their single-fault mutants, compares value, "
         "re-encoding and error (which must name the property) with the model, and the generator's validity label with the Coq validator. "
         "C08_oneof_accepts_only_a_variant / C08_oneof_unknown_discriminator: a oneOf decoder accepts only what one of its variants' decoders "
         "accepts (so the strictness theorems carry over) and rejects a discriminator value its switch does not list; tie: valid documents and "
         "single changes of them (no / unknown / other variant's / ill-typed / duplicated discriminator, two variants' keys, non-objects).",
-   note="As C06. PARTIAL: `validates s j -> the decoded value re-encodes to the kept part of j` is not a theorem (acceptance is: C08_valid_accepted).",
+   note="As C06. PARTIAL: `the re-encoding of the decoded value equals the kept part of j` (number spelling aside) is not a theorem; acceptance (C08_valid_accepted) and stability under a decode/encode cycle (C08_reencode_stable) are.",
    ref="DESIGN.md section 4 (C06-C08)"),
  "C01": dict(
    technique="Coq proof of the output gate (success => every written file parses and is a gofmt fixpoint, no clash of declared names; a broken file is an error) and of the identifier layer (PublicFieldName yields an exported Go identifier) + exhaustive compile matrix of the dialect's feature cells with the real generator and Go toolchain (PARTIAL: type-correctness is enumerated, not proved)",
